@@ -250,6 +250,12 @@ def default_compare(case, go, m, s):
     return go == m, go == s
 
 
+def crash_kind(prop, text):
+    """a crash is a violation of the property itself when the property forbids it (on_crash may decide by the panic text)"""
+    k = prop.get("on_crash", "property")
+    return k(text) if callable(k) else k
+
+
 def evaluate(prop, pairs):
     """pairs: list of (case, go). returns list of dicts for failures and stats"""
     ms = run_driver([c + "\t" + g for c, g in pairs])
@@ -257,7 +263,7 @@ def evaluate(prop, pairs):
     fails = []
     for (c, g), (m, s) in zip(pairs, ms):
         if g.startswith("CRASH") or g.startswith("PANIC"):
-            fails.append({"kind": prop.get("on_crash", "property"), "case": c, "go": g, "model": m, "spec": s,
+            fails.append({"kind": crash_kind(prop, g), "case": c, "go": g, "model": m, "spec": s,
                           "why": "the real code crashed / panicked"})
             continue
         corr, ok = cmpf(c, g, m, s)
@@ -490,7 +496,7 @@ def main(argv):
                 pairs, crash = gen_cases(hb, g["id"], sd, n, thorough, env=env)
                 fails = evaluate(prop, pairs)
                 if crash:
-                    fails.append({"kind": prop.get("on_crash", "property"),
+                    fails.append({"kind": crash_kind(prop, "CRASH " + crash[1]),
                                   "case": crash[0] or f"<generator {g['id']} seed {sd} n {n}>", "go": "CRASH " + crash[1],
                                   "model": "", "spec": "", "why": "the harness process died (panic in the real code)"})
                 return pairs, fails
